@@ -144,4 +144,188 @@ theorem fetchV_arr {a b : Val} {k : RKind} {ki : Kind} (hi : E .index) (ha : Arr
   · simp only [hr, if_false]
     exact hi
 
+/-! ### identifiers and `#` -/
+
+/-- the environment value holds, under every name the checker types as a scalar or a slice of scalars,
+a value of that type -/
+def EnvConforms2 (cfg : CheckCfg) (env : Val) : Prop :=
+  ∀ name ns τ V, identRule cfg name ns = .ok τ → vtyOf τ = some V →
+    ∃ v, fetchV env (.str name) ns = .ok v ∧ ValOfV v V
+
+theorem spec2_ident (cfg : CheckCfg) (c : SCfg) (cs : List OTy) (henv : EnvConforms2 cfg c.env) (m : Meta)
+    (name : String) (ns : Bool) : Spec2 E cfg c cs (.ident m name ns) := by
+  intro τ V hs hV st _
+  simp only [synth] at hs
+  have hrule := toOption'_some hs
+  simp only [visit, hrule, orFail_ok]
+  refine ⟨trivial, setKd_kd _ _, ?_⟩
+  intro ctx _ s
+  show match (eval c ctx (.ident { m with kd := τ.kind } name ns) s).1 with
+    | .ok v => ValOfV v V
+    | .error e => E e
+  obtain ⟨v, hv, hk⟩ := henv name ns τ V hrule hV
+  simp only [eval, SM.lift, hv, SM.pure']
+  exact hk
+
+theorem spec2_pointer (hi : E .index) (cfg : CheckCfg) (c : SCfg) (cs : List OTy) (m : Meta) :
+    Spec2 E cfg c cs (.pointer m) := by
+  intro τ V hs hV st hst
+  simp only [synth] at hs
+  have hrule := toOption'_some hs
+  simp only [visit, hst, hrule, orFail_ok]
+  refine ⟨trivial, setKd_kd _ _, ?_⟩
+  intro ctx hctx s
+  show match (eval c ctx (.pointer { m with kd := τ.kind }) s).1 with
+    | .ok v => ValOfV v V
+    | .error e => E e
+  cases cs with
+  | nil => simp [pointerRule] at hrule
+  | cons ct rest =>
+    cases ctx with
+    | nil => exact absurd hctx (by simp [CtxFor])
+    | cons cv ctx' =>
+      obtain ⟨coll, i⟩ := cv
+      obtain ⟨k, hk, harr⟩ := hctx
+      obtain ⟨_, et, hidx, hek, hes⟩ := slice_type_facts hk
+      simp only [pointerRule, hidx] at hrule
+      cases hrule
+      rw [vtyOf_scalar hes, hek] at hV
+      cases hV
+      simp only [eval, SM.lift]
+      have hnum : NumOf (Val.int .int i) Kind.int := ⟨i, rfl⟩
+      have hf := fetchV_arr (E := E) hi harr hnum
+      cases hfe : fetchV coll (.int .int i) false with
+      | ok v => rw [hfe] at hf; exact hf
+      | error e => rw [hfe] at hf; exact hf
+
+/-! ### indexing, `len`, `in`, `..` -/
+
+theorem spec2_index (hi : E .index) (cfg : CheckCfg) (c : SCfg) (cs : List OTy) (m : Meta) (x i : Node)
+    (ihx : Spec2 E cfg c cs x) (ihi : Spec2 E cfg c cs i)
+    (hx : ∀ t, synth cfg cs x = some t → ∃ k, sliceElemKind t = some k)
+    (hidx : ∀ it, synth cfg cs i = some it → ScalarT it ∧ isIntegerT it = true) :
+    Spec2 E cfg c cs (.index m x i) := by
+  intro τ V hs hV st hst
+  simp only [synth] at hs
+  cases hsx : synth cfg cs x with
+  | none => rw [hsx] at hs; cases hs
+  | some t =>
+    cases hsi : synth cfg cs i with
+    | none => rw [hsx, hsi] at hs; cases hs
+    | some it =>
+      rw [hsx, hsi] at hs
+      simp only [] at hs
+      have hrule := toOption'_some hs
+      obtain ⟨k, hk⟩ := hx t hsx
+      obtain ⟨his, hii⟩ := hidx it hsi
+      obtain ⟨ki, hki, _⟩ := (isIntegerT_scalar his).1 hii
+      obtain ⟨_, et, hidxT, hek, hes⟩ := slice_type_facts hk
+      have hVx : vtyOf t = some (.sl k) := by
+        unfold vtyOf
+        obtain ⟨ty, e, rfl, _, _, _, _, hkind⟩ := sliceElemKind_facts hk
+        simp [OTy.kind, hkind, RKind.isScalar, hk]
+      obtain ⟨e1, _, ev1⟩ := ihx t (.sl k) hsx hVx st hst
+      have hst1 := visit_colls cfg x st
+      rcases hxv : visit cfg x st with ⟨x', t', st1⟩
+      rw [hxv] at e1 ev1 hst1
+      simp only [] at e1 ev1 hst1
+      subst e1
+      obtain ⟨e2, _, ev2⟩ := ihi it (.sc it.kind) hsi (vtyOf_scalar his) st1 (hst1.trans hst)
+      rcases hiv : visit cfg i st1 with ⟨i', it', st2⟩
+      rw [hiv] at e2 ev2
+      simp only [] at e2 ev2
+      subst e2
+      -- the rule's result is the element type
+      have hτ : τ = et := by
+        unfold indexRule at hrule
+        rw [hidxT] at hrule
+        simp only [] at hrule
+        split at hrule
+        · cases hrule
+        · cases hrule; rfl
+      subst hτ
+      rw [vtyOf_scalar hes, hek] at hV
+      cases hV
+      simp only [visit, hxv, hiv, hrule, orFail_ok]
+      refine ⟨trivial, setKd_kd _ _, ?_⟩
+      intro ctx hctx s
+      show match (eval c ctx (.index { m with kd := OTy.kind τ } x' i') s).1 with
+        | .ok v => ValOfK v k
+        | .error e => E e
+      simp only [eval, bind]
+      unfold SM.bind'
+      have h1 := ev1 ctx hctx s
+      rcases hea : eval c ctx x' s with ⟨ra, s1⟩
+      rw [hea] at h1
+      cases ra with
+      | error e => exact h1
+      | ok a =>
+        simp only [] at h1 ⊢
+        have h2 := ev2 ctx hctx s1
+        rcases heb : eval c ctx i' s1 with ⟨rb, s2⟩
+        rw [heb] at h2
+        cases rb with
+        | error e => exact h2
+        | ok b =>
+          simp only [] at h2 ⊢
+          rw [hki] at h2
+          have hf := fetchV_arr (E := E) hi h1 h2
+          simp only [SM.lift]
+          cases hfe : fetchV a b false with
+          | ok v => rw [hfe] at hf; exact hf
+          | error e => rw [hfe] at hf; exact hf
+
+theorem lengthV_ok {v : Val} {V : VTy} (hV : V = .sc .string ∨ ∃ k, V = .sl k) (hv : ValOfV v V) :
+    ∃ n, lengthV v = .ok n := by
+  rcases hV with rfl | ⟨k, rfl⟩
+  · obtain ⟨x, rfl⟩ := hv; exact ⟨_, rfl⟩
+  · obtain ⟨et, xs, rfl, _⟩ := hv; exact ⟨_, rfl⟩
+
+theorem spec2_len (cfg : CheckCfg) (c : SCfg) (cs : List OTy) (m : Meta) (a : Node)
+    (iha : Spec2 E cfg c cs a)
+    (ha : ∀ t, synth cfg cs a = some t → ∃ V, vtyOf t = some V ∧ (V = .sc .string ∨ ∃ k, V = .sl k)) :
+    Spec2 E cfg c cs (.builtin m "len" [a]) := by
+  intro τ V hs hV st hst
+  simp (config := {decide := true}) only [synth, if_true] at hs
+  cases hsa : synth cfg cs a with
+  | none => rw [hsa] at hs; cases hs
+  | some pt =>
+    rw [hsa] at hs
+    simp only [] at hs
+    have hrule := toOption'_some hs
+    obtain ⟨Va, hVa, hshape⟩ := ha pt hsa
+    obtain ⟨e1, _, ev1⟩ := iha pt Va hsa hVa st hst
+    rcases hav : visit cfg a st with ⟨a', pt', st1⟩
+    rw [hav] at e1 ev1
+    simp only [] at e1 ev1
+    subst e1
+    have hτ : τ = intTy := by
+      unfold lenRule at hrule
+      split at hrule
+      · cases hrule; rfl
+      · cases hrule
+    subst hτ
+    have : V = .sc (.num .int) := by
+      have : vtyOf intTy = some (.sc (.num .int)) := by decide
+      rw [this] at hV; cases hV; rfl
+    subst this
+    simp (config := {decide := true}) only [visit, if_true, hav, hrule, orFail_ok]
+    refine ⟨trivial, setKd_kd _ _, ?_⟩
+    intro ctx hctx s
+    show match (eval c ctx (.builtin { m with kd := OTy.kind intTy } "len" [a']) s).1 with
+      | .ok v => ValOfK v (.num .int)
+      | .error e => E e
+    simp only [eval, bind]
+    unfold SM.bind'
+    have h1 := ev1 ctx hctx s
+    rcases hea : eval c ctx a' s with ⟨ra, s1⟩
+    rw [hea] at h1
+    cases ra with
+    | error e => exact h1
+    | ok v =>
+      simp only [] at h1 ⊢
+      obtain ⟨n, hn⟩ := lengthV_ok hshape h1
+      simp only [SM.lift, hn, SM.pure', pure]
+      exact ⟨n, rfl⟩
+
 end ExprModel
